@@ -79,7 +79,7 @@ def outcomeLetter : Outcome → String
 
 def wireLetter : WOut → String
   | .plain o => outcomeLetter o
-  | .codeRefused => "V"
+  | .codeRefused => "P"
 
 def windowOps (w : RW) : List String → Option (RW × List String)
   | [] => some (w, [])
